@@ -1,0 +1,31 @@
+// Copyright 2023-2026 Buf Technologies, Inc.
+//
+// Licensed under the Apache License, Version 2.0 (the "License");
+// you may not use this file except in compliance with the License.
+// You may obtain a copy of the License at
+//
+//      http://www.apache.org/licenses/LICENSE-2.0
+//
+// Unless required by applicable law or agreed to in writing, software
+// distributed under the License is distributed on an "AS IS" BASIS,
+// WITHOUT WARRANTIES OR CONDITIONS OF ANY KIND, either express or implied.
+// See the License for the specific language governing permissions and
+// limitations under the License.
+
+//go:build !verif
+
+package vanguard
+
+import "bytes"
+
+// Verification hooks: no-ops unless built with -tags verif (see verif_on.go).
+
+func verifPoolGet(*bytes.Buffer)                        {}
+func verifPoolPut(*bytes.Buffer) bool                   { return false }
+func verifPoolWrap(_ []byte, _, _ *bytes.Buffer)        {}
+func verifCodecGet(_ *compressionPool, _ string, _ any) {}
+func verifCodecPut(_ *compressionPool, _ string, _ any) {}
+func verifPoint(string)                                 {}
+
+// verifEnabled reports whether verification hooks are compiled in.
+const verifEnabled = false
